@@ -54,8 +54,9 @@ def gen_ops(rng, n):
             chain = [rng.randrange(len(names)) for _ in range(k + 1)]
             if rng.random() < 0.5:
                 chain = [chain[0]] * (k + 1)
-            incs = [Fraction(rng.randrange(1, 64), 2 ** rng.randrange(0, 6)) for _ in range(2 * k + 1)]
-            ops.append(('n', chain, incs))
+            inner_raises = rng.random() < 0.3
+            incs = [Fraction(rng.randrange(1, 64), 2 ** rng.randrange(0, 6)) for _ in range(2 * k + (0 if inner_raises else 1))]
+            ops.append(('n', chain, incs, inner_raises))
         elif r < 0.93:
             mh = rng.choice([None, None, 1, 2, 3, 4, 8, 100, rng.randrange(1, 6)])
             if rng.random() < 0.12:
@@ -74,9 +75,17 @@ def flatten(ops):
         if op[0] != 'n':
             out.append(op)
             continue
-        _, chain, incs = op
+        chain, incs = op[1], op[2]
+        inner_raises = len(op) > 3 and op[3]
         k = len(chain) - 1
         starts, ends = incs[:k], incs[k:]          # s_1..s_k ; e_k..e_0
+        if inner_raises:
+            # the innermost call raises (its caller catches the exception and goes on): the wrapper reads the clock at its
+            # start only, so there is no end increment for level k and it records nothing
+            out.append(('c', chain[k], Fraction(0), True))
+            for m in range(k - 1, -1, -1):
+                out.append(('c', chain[m], sum(starts[m:], Fraction(0)) + sum(ends[:k - m], Fraction(0)), False))
+            continue
         for m in range(k, -1, -1):
             dur = sum(starts[m:], Fraction(0)) + sum(ends[:k - m + 1], Fraction(0))
             out.append(('c', chain[m], dur, False))
@@ -115,9 +124,14 @@ def run_real(ops, names, ctx, case):
                         raise Boom(i)
                     ch = k.get('chain')
                     if ch:
-                        r = fns[ch[0]](*a, key=k.get('key'), boom=False, chain=ch[1:])
-                        if r is not sentinel[ch[0]]:
-                            ctx.fail('nested traced function returned a different object', case, 'return-changed')
+                        try:
+                            r = fns[ch[0]](*a, key=k.get('key'), boom=bool(k.get('inner_boom') and len(ch) == 1), chain=ch[1:],
+                                           inner_boom=k.get('inner_boom'))
+                            if r is not sentinel[ch[0]]:
+                                ctx.fail('nested traced function returned a different object', case, 'return-changed')
+                        except Boom:
+                            if not (k.get('inner_boom') and len(ch) == 1):
+                                raise
                     return sentinel[i]
                 return lambda *a, **k: getattr(holder, f'm{i}')(*a, **k)
 
@@ -127,9 +141,14 @@ def run_real(ops, names, ctx, case):
                     raise Boom(i)
                 ch = k.get('chain')
                 if ch:
-                    r = fns[ch[0]](*a, key=k.get('key'), boom=False, chain=ch[1:])
-                    if r is not sentinel[ch[0]]:
-                        ctx.fail('nested traced function returned a different object', case, 'return-changed')
+                    try:
+                        r = fns[ch[0]](*a, key=k.get('key'), boom=bool(k.get('inner_boom') and len(ch) == 1), chain=ch[1:],
+                                       inner_boom=k.get('inner_boom'))
+                        if r is not sentinel[ch[0]]:
+                            ctx.fail('nested traced function returned a different object', case, 'return-changed')
+                    except Boom:
+                        if not (k.get('inner_boom') and len(ch) == 1):
+                            raise
                 return sentinel[i]
             fn.__name__ = nm
             return tr.trace()(fn)
@@ -140,7 +159,7 @@ def run_real(ops, names, ctx, case):
                 clock.script = [Fraction(1, 8), dt]  # t0 read, then t1 = t0 + dt
                 arg = object()
                 try:
-                    r = fns[i](arg, 7, key=arg, boom=raises)
+                    r = fns[i](arg, 7, key=arg, boom=raises, func=arg, sync=False, self=None if i % 3 == 2 else arg)
                     if raises:
                         ctx.fail('exception of the traced function was swallowed', case, 'swallowed')
                     if r is not sentinel[i]:
@@ -154,14 +173,15 @@ def run_real(ops, names, ctx, case):
                     clock.script = []
                     continue
                 a, k = seen_args.get(i, ((), {}))
-                if len(a) != 2 or a[0] is not arg or a[1] != 7 or k.get('key') is not arg:
+                if len(a) != 2 or a[0] is not arg or a[1] != 7 or k.get('key') is not arg or k.get('func') is not arg \
+                        or k.get('sync') is not False:
                     ctx.fail('arguments were not passed through unchanged', case, 'args-changed')
             elif op[0] == 'n':
-                _, chain, incs = op
+                chain, incs = op[1], op[2]
                 clock.script = [Fraction(1, 8)] + list(incs)
                 arg = object()
                 try:
-                    r = fns[chain[0]](arg, 7, key=arg, boom=False, chain=list(chain[1:]))
+                    r = fns[chain[0]](arg, 7, key=arg, boom=False, chain=list(chain[1:]), inner_boom=(len(op) > 3 and op[3]))
                 except Exception as e:  # noqa: BLE001
                     ctx.fail(f'a chain of traced calls raised {type(e).__name__}: {e}', case, 'raise-changed')
                     clock.script = []
@@ -265,8 +285,9 @@ def run(ctx):
             (f'c:{names[o[1]]}:{rat(o[2])}:{int(o[3])}' if o[0] == 'c' else
              ('x' if o[0] == 'x' else
               # re-entrant chains go to the model's clock/stack machine as they are (KV.Trace.nrun)
-              (f'n:{">".join(names[i] for i in o[1])}:{",".join(rat(x) for x in o[2])}' if o[0] == 'n' else
-               f'q:{int(o[1])}:{"-" if o[2] is None else o[2]}'))) for o in orig_ops))
+              ('|'.join(f'c:{names[f[1]]}:{rat(f[2])}:{int(f[3])}' for f in flatten([o])) if o[0] == 'n' and len(o) > 3 and o[3] else
+               (f'n:{">".join(names[i] for i in o[1])}:{",".join(rat(x) for x in o[2])}' if o[0] == 'n' else
+                f'q:{int(o[1])}:{"-" if o[2] is None else o[2]}')))) for o in orig_ops))
         pend.append((case, impl_strs))
         ncalls = sum(1 for o in ops if o[0] == 'c')
         nq = sum(1 for o in ops if o[0] == 'q' and o[2] is not None)
@@ -313,7 +334,7 @@ def replay(ctx, payload):
             if o[0] == 'c':
                 ops.append(('c', o[1], Fraction(o[2]), o[3]))
             elif o[0] == 'n':
-                ops.append(('n', list(o[1]), [Fraction(x) for x in o[2]]))
+                ops.append(('n', list(o[1]), [Fraction(x) for x in o[2]], bool(o[3]) if len(o) > 3 else False))
             elif o[0] == 'q':
                 ops.append(('q', o[1], o[2]))
             else:
